@@ -74,7 +74,8 @@ Definition mesh_init (links : list (nat * nat * nat)) (subs : list (nat * nat)) 
   Net [] [] []
       (flat_map (fun e => let '(u, v, l) := e in link_pc subs u v l) links)
       subs
-      (flat_map (fun e => let '(u, v, l) := e in [LK u v l; LK v u l]) links).
+      (flat_map (fun e => let '(u, v, l) := e in [LK u v l; LK v u l]) links)
+      [].
 
 Definition wire_count (w : list (nat * nat * nat * nat)) (u v l : nat) : nat :=
   fold_left (fun acc e => let '(a, b, c, k) := e in
@@ -120,7 +121,7 @@ Fixpoint mesh_run (fuel : nat) (n : nat) (subs : list (nat * nat)) (s : net) (i 
   | EDown u v l :: evs' =>
       mesh_run fuel n subs (apply_acts s [PeerGone u v l; PeerGone v u l]) i evs' handed wire
   | EUp u v l :: evs' =>
-      let s1 := apply_acts s [LinkUp u v l; LinkUp v u l] in
+      let s1 := apply_acts s [LinkAdd u v l; LinkAdd v u l; LinkStart u v l; LinkStart v u l] in
       let s2 := apply_acts s1 (map (fun e => SetPC (c_u e) (c_v e) (c_l e) (c_ch e) true) (link_pc subs u v l)) in
       mesh_run fuel n subs s2 i evs' handed wire
   | EPub o ch :: evs' =>
